@@ -34,16 +34,25 @@ def pParams : P (Params α) := do
     let ml ← pNat; let mf ← pNat; let e ← pScalar; let b ← pScalar
     pure ⟨mi, ml, mf, e, b⟩
 
-def pFix (bias : α) : P (Face α → Face α) := do
+/-- `cur` = the code as it is now; `before` = the code before the upstream repair of the winding -/
+def pVariant : P Bool := do
   let t ← tok
-  if t = "asis" then pure (fixCcwAsIs bias)
-  else if t = "fixed" then pure (fixCcwFixed bias)
-  else throw s!"fix variant {t}"
+  if t = "cur" then pure true
+  else if t = "before" then pure false
+  else throw s!"variant {t}"
 
-/-- `C07.init s0 s1 s2 s3` -/
+def fixOf (cur : Bool) (bias : α) : Face α → Face α :=
+  if cur then fixCcw bias else fixCcw_asIs_before_fix bias
+
+def initOf (cur : Bool) : V3 α → V3 α → V3 α → V3 α → List (Face α) :=
+  if cur then initFaces else initFaces_asIs_before_fix
+
+/-- `C07.init <cur|before> s0 s1 s2 s3` → `ok <swapped 0/1> <faces>` -/
 def initFn : P String := do
+  let cur ← pVariant
   let s0 : V3 α ← pV3; let s1 ← pV3; let s2 ← pV3; let s3 ← pV3
-  pure s!"ok {rFaces (initFaces s0 s1 s2 s3)}"
+  let sw := cur && decide (0 < simplexOrient s0 s1 s2 s3)
+  pure s!"ok {if sw then 1 else 0} {Codec.render (simplexOrient s0 s1 s2 s3)} {rFaces (initOf cur s0 s1 s2 s3)}"
 
 /-- `C07.closest <faces>` → `ok idx minDist` -/
 def closestFn : P String := do
@@ -52,11 +61,12 @@ def closestFn : P String := do
   | .ok (i, d, _) => pure s!"ok {i} {Codec.render d}"
   | .error e => pure (rErrS e)
 
-/-- `C07.step <params> <fix> <faces> <w>` : one loop body with the recorded support point.
+/-- `C07.step <params> <cur|before> <faces> <w>` : one loop body with the recorded support point.
 `ok 0 idx minDist mtv` (converged) | `ok 1 idx minDist ov <kept> ; <loose> ; <faces>` | `err …` -/
 def stepFn : P String := do
   let p : Params α ← pParams
-  let fix ← pFix p.bias
+  let cur ← pVariant
+  let fix := fixOf cur p.bias
   let fs ← pFaces
   let w ← pV3
   match closest fs with
@@ -68,17 +78,17 @@ def stepFn : P String := do
     | .ok (.grown faces' loose ov kept) =>
       pure s!"ok 1 {i} {Codec.render d} {if ov then 1 else 0} {rFaces kept} ; {rEdges loose} ; {rFaces faces'}"
 
-/-- `C07.run <params> <fix> s0 s1 s2 s3 <nW> w_0 … w_{nW-1}` : whole `epa` with the support
+/-- `C07.run <params> <cur|before> s0 s1 s2 s3 <nW> w_0 … w_{nW-1}` : whole `epa` with the support
 queries answered from the recorded trace (query `it` gets `w_it`; beyond the trace: zero vector and
 the flag `short`). `ok success iters nfaces (mtv|stale) <faces> ; <query directions>` -/
 def runFn : P String := do
   let p : Params α ← pParams
-  let fix ← pFix p.bias
+  let cur ← pVariant
   let s0 : V3 α ← pV3; let s1 ← pV3; let s2 ← pV3; let s3 ← pV3
   let nW ← pNat
   let ws ← pMany nW (pV3 (α := α))
   let supp : Nat → V3 α → V3 α := fun it _ => (ws[it]?).getD ⟨0, 0, 0⟩
-  match epa p fix supp s0 s1 s2 s3 with
+  match epaWith p (fixOf cur p.bias) (initOf cur) supp s0 s1 s2 s3 with
   | .error e => pure (rErrS e)
   | .ok r =>
     let m := match r.mtv with
@@ -86,12 +96,12 @@ def runFn : P String := do
       | none => "stale"
     pure s!"ok {if r.success then 1 else 0} {r.iters} {m} {rFaces r.faces}"
 
-/-- `C07.fixccw <asis|fixed> bias <face>` -/
+/-- `C07.fixccw <cur|before> bias <face>` -/
 def fixFn : P String := do
-  let v ← tok
+  let cur ← pVariant
   let bias : α ← pScalar
   let f : Face α ← pFace
-  let g := if v = "fixed" then fixCcwFixed bias f else fixCcwAsIs bias f
+  let g := fixOf cur bias f
   let flipped := decide (V3.dot f.a f.n + bias < 0)
   pure s!"ok {if flipped then 1 else 0} {rFace g}"
 
